@@ -531,7 +531,17 @@ class SymInterp(Interp):
         if name == "errstate":
             return lambda **k: None
         if name == "asanyarray" or name == "ascontiguousarray":
-            return lambda x, **k: x if isinstance(x, SArr) else SArr.from_nested(x)
+            def asany(x, dtype=None, _n=name, **k):
+                if k:
+                    raise AnalysisAbort(f"np.{_n} keyword(s) {sorted(k)}")
+                a = x if isinstance(x, SArr) else SArr.from_nested(x)
+                if _n == "ascontiguousarray":
+                    if a.ndim == 0:
+                        return I.sarr_attr(a, "reshape", None)((1,))      # documented: ndim >= 1
+                    if not Flags(a).c_contiguous:
+                        return a.copy()
+                return a
+            return asany
         if name == "ndarray":
             return NDARRAY
         if name == "newaxis":
